@@ -15,6 +15,7 @@ pub const PROBE: Address = address!("b0000000000000000000000000000000000000a8");
 pub const BRET64: Address = address!("b0000000000000000000000000000000000000a9"); // returns 64 bytes of 0xee..
 pub const BNEST: Address = address!("b0000000000000000000000000000000000000aa"); // calls BWRITE then reverts
 pub const BSDREV: Address = address!("b0000000000000000000000000000000000000ab"); // calls BSD (which self-destructs), then reverts
+pub const BW1: Address = address!("b0000000000000000000000000000000000000ac"); // SSTORE(1, 7) (meant to be delegate-called)
 pub const ID: Address = address!("0000000000000000000000000000000000000004");
 pub const ECREC: Address = address!("0000000000000000000000000000000000000001");
 
@@ -62,6 +63,9 @@ pub fn code_bnest() -> Vec<u8> {
         .op(op::REVERT)
         .build()
 }
+pub fn code_bw1() -> Vec<u8> {
+    Asm::new().sstore(1, 7).op(op::STOP).build()
+}
 pub fn code_bsdrev() -> Vec<u8> {
     Asm::new().call(op::CALL, U256::from(60000), BSD, Some(U256::ZERO), 0, 0, 0, 0).op(op::POP).push_u(0).push_u(0).op(op::REVERT).build()
 }
@@ -101,6 +105,7 @@ pub fn std_world() -> Plain {
     w.insert(BRET64, PlainAcc::contract(&code_bret64()));
     w.insert(BNEST, PlainAcc::contract(&code_bnest()));
     w.insert(BSDREV, PlainAcc::contract(&code_bsdrev()));
+    w.insert(BW1, PlainAcc::contract(&code_bw1()));
     w.insert(RICH, PlainAcc { balance: U256::MAX, ..Default::default() });
     w.insert(DUST, PlainAcc::default());
     w.insert(STOR, PlainAcc::default().with_storage(1, 1));
